@@ -227,6 +227,10 @@ func c15Units(tier string) []Unit {
 	add("options-on-several-results", h.Config{}, alpha{scopes: sc, ctors: []*uFunc{pABn, pABg, pA, pBn}, invokes: []*uFunc{qAn, iBn, iA, iG, iGB}})
 	add("objects", h.Config{}, alpha{scopes: sc, ctors: []*uFunc{pA, pCo, pM, pABo}, decos: []*uFunc{dG}, invokes: []*uFunc{iO, iO2, iC}})
 	add("duplicates-and-cycles", h.Config{}, alpha{scopes: sc, ctors: []*uFunc{pA, pA2, rAB, rBC, rCA, pABo}, invokes: []*uFunc{iA, iB}})
+	// a provider shadowed in a child by one that closes a cycle through an
+	// existing consumer of the key (the consumer registered before or after
+	// the child came to see it)
+	add("shadowing-cycles", h.Config{}, alpha{scopes: sc, ctors: []*uFunc{pA, pB, rAB, pCb}, invokes: []*uFunc{iA, iB}})
 	if !q {
 		add("defer/positional", h.Config{Defer: true}, alpha{scopes: sc, ctors: []*uFunc{pA, pB, pC, rAB}, export: true, decos: []*uFunc{dA}, invokes: []*uFunc{iA, iC}})
 	}
